@@ -554,4 +554,92 @@ def Net.assign (id : Nat) (s : Slot) (v : T) : Net → Net
   | .un i f a => .un i f (a.assign id s v)
   | .bin i f a b => .bin i f (a.assign id s v) (b.assign id s v)
 
+/-! ### `unfold_model` on the LIST `model.layers`: clone every layer, then transfer every layer's weights
+
+  `clone_model(model, clone_function=_convert_folded_layer)` builds NEW layers from configurations
+  alone (class converted for the folded layers, everything else `from_config(get_config())`, the
+  `trainable` attribute included): their variables hold whatever the initialisers produce.  The
+  final loop `for (src_layer, new_layer) in zip(model.layers, cloned_model.layers):
+  _clone_weights(src_layer, new_layer)` then runs over EVERY layer — it does not look at
+  `layer.trainable`, `trainable_weights` or `non_trainable_weights`.  A layer can own variables
+  none of which is trainable: a frozen layer (`layer.trainable = False`, `model.trainable = False`,
+  `trainable=False` at construction) or `BatchNormalization(center=False, scale=False)`. -/
+
+/-- one entry of `model.layers`: the layer and its `trainable` attribute -/
+structure MLayer where
+  op : LayerOp
+  trainable : Bool := true
+
+/-- all variables of a layer that determine its function (plain layers: `get_weights()`; folded
+    layers: `get_weights()` without the `_iteration` counter).  Dense / QDense applied to a 4-d
+    tensor are the `conv` case with a 1×1 kernel. -/
+def LayerOp.weights : LayerOp → List T
+  | .conv P => P.kernel :: P.bias.toList
+  | .bn p _ => p.gamma.toList ++ (p.beta.toList ++ [p.mean, p.var])
+  | .folded L => L.kernel :: (L.bias.toList ++ (L.bn.gamma.toList ++ (L.bn.beta.toList ++ [L.bn.mean, L.bn.var])))
+  | _ => []
+
+/-- `layer.trainable_weights`: EMPTY for a frozen layer whatever it owns; else kernel / bias /
+    gamma / beta (the moving statistics are never trainable) -/
+def MLayer.trainableWeights (l : MLayer) : List T :=
+  if l.trainable then
+    match l.op with
+    | .conv P => P.kernel :: P.bias.toList
+    | .bn p _ => p.gamma.toList ++ p.beta.toList
+    | .folded L => L.kernel :: (L.bias.toList ++ (L.bn.gamma.toList ++ L.bn.beta.toList))
+    | _ => []
+  else []
+
+/-- `_convert_folded_layer(layer)` + `build`: the new layer has the source's configuration (a
+    folded layer becomes the plain quantized layer with `use_bias=True`) and FRESHLY INITIALISED
+    variables `init` (position `j` of `init` = `j`-th variable; nothing of the source's arrays) -/
+def LayerOp.cloneFresh (init : List T) : LayerOp → LayerOp
+  | .conv P => .conv { P with kernel := init.getD 0 [], bias := P.bias.map fun _ => init.getD 1 [] }
+  | .bn p ch => .bn { p with gamma := p.gamma.map fun _ => init.getD 0 [], beta := p.beta.map fun _ => init.getD 1 [],
+                             mean := init.getD 2 [], var := init.getD 3 [] } ch
+  | .folded L => .conv { cfg := L.cfg, kernel := init.getD 0 [], bias := some (init.getD 1 []),
+                         qk := L.qk, qb := L.qb, act := L.act }
+  | op => op
+
+/-- `_clone_weights(src_layer, new_layer)`: folded source → `set_weights(get_folded_weights())`,
+    anything else → `set_weights(src_layer.get_weights())` (a no-op for a layer without variables) -/
+def cloneWeights (rs : Rat → Rat) (src new : LayerOp) : Option LayerOp :=
+  match src, new with
+  | .folded L, .conv P => (L.foldedWeights rs).map fun w => .conv { P with kernel := w.1, bias := some w.2 }
+  | .conv S, .conv P => some (.conv { P with kernel := S.kernel, bias := S.bias })
+  | .bn s _, .bn p ch => some (.bn { p with gamma := s.gamma, beta := s.beta, mean := s.mean, var := s.var } ch)
+  | _, new => some new
+
+/-- one round of the loop for a transfer loop that SKIPS the layers selected by `skip`
+    (`unfold_model` itself skips nothing) -/
+def transferOne (skip : MLayer → Bool) (rs : Rat → Rat) (init : List T) (l : MLayer) : Option MLayer :=
+  if skip l then some { op := l.op.cloneFresh init, trainable := l.trainable }
+  else (cloneWeights rs l.op (l.op.cloneFresh init)).map fun op => { op := op, trainable := l.trainable }
+
+/-- clone + transfer over `model.layers` from position `i` on; `init i` = the fresh variables of
+    the clone of layer `i` -/
+def transferFrom (skip : MLayer → Bool) (rs : Rat → Rat) (init : Nat → List T) : Nat → List MLayer → Option (List MLayer)
+  | _, [] => some []
+  | i, l :: ls => (transferOne skip rs (init i) l).bind fun l' => (transferFrom skip rs init (i + 1) ls).map (l' :: ·)
+
+/-- `unfold_model(model).layers` AS CODED: every layer's weights are transferred -/
+def unfoldLayers (rs : Rat → Rat) (init : Nat → List T) (ls : List MLayer) : Option (List MLayer) :=
+  transferFrom (fun _ => false) rs init 0 ls
+
+/-- what the property asks of one layer of the unfolded model: the plain layer holding the folded
+    weights for a folded layer, the SAME layer (all variables) otherwise -/
+def LayerOp.unfolded (rs : Rat → Rat) : LayerOp → Option LayerOp
+  | .folded L => (L.unfold rs).map .conv
+  | op => some op
+
+def MLayer.unfolded (rs : Rat → Rat) (l : MLayer) : Option MLayer :=
+  (l.op.unfolded rs).map fun op => { op := op, trainable := l.trainable }
+
+def unfoldedLayers (rs : Rat → Rat) : List MLayer → Option (List MLayer)
+  | [] => some []
+  | l :: ls => (l.unfolded rs).bind fun l' => (unfoldedLayers rs ls).map (l' :: ·)
+
+/-- the layer at position `i` of a layer list (`toNet` reads the network through this) -/
+def opsOf (ls : List MLayer) (i : Nat) : LayerOp := (ls.map (·.op)).getD i .input
+
 end QKV.Fold
